@@ -202,9 +202,12 @@ def rule_prec(ctx) -> None:
                   f"`{s}` can be returned without `{bad[0]}` having been tested first (its test `{bad[1]}` does not dominate): reason precedence wall > budget > quantum is broken" if bad else "")
     # the wall test compares elapsed ms with budgets['wall_ms']; quantum with quantum_ms
     rd = ctx.rd(fn)
+    b_names = {d.name for d in rd.all_defs if d.kind == "assign" and d.value is not None and isinstance(d.value, ast.Subscript) and const_str(d.value.slice) == "budgets"} or {"budgets"}
+    consumed_p = fn.params[1] if len(fn.params) > 1 else "consumed"
+    e_names = {d.name for d in rd.all_defs if d.kind == "assign" and d.value is not None and any(const_str(z) == "ms" for z in ast.walk(d.value))}
     for n, s, rk in rets:
         g = guard_branch(n)
-        gt = rd.inline(g[0], g[2].pred[0][0], stop=("budgets", "consumed", "elapsed_ms")) if g else None
+        gt = rd.inline(g[0], g[2].pred[0][0], stop=tuple(b_names | {consumed_p} | e_names)) if g else None
         t = src(gt) if gt is not None else ""
         if rk == 0:
             ctx.check("wall_ms" in t and ">=" in t, "C17.PREC", f"{fn.qual}/wall-test", fn.loc(n.ast), f"WALL_MS under `{t[:60]}`", f"WALL_MS is guarded by `{t[:60]}`")
@@ -218,7 +221,7 @@ def rule_prec(ctx) -> None:
                     ls = {y.value for y in ast.walk(x.left) if isinstance(y, ast.Constant) and isinstance(y.value, str)}
                     rs = {y.value for y in ast.walk(x.comparators[0]) if isinstance(y, ast.Constant) and isinstance(y.value, str)}
                     sides = src(x.left) + "|" + src(x.comparators[0])
-                    if ls == {want} and rs == {want} and "consumed" in sides and "budgets" in sides:
+                    if ls == {want} and rs == {want} and consumed_p in sides and any(b in sides for b in b_names):
                         okb = True
             ctx.check(okb, "C17.PREC", f"{fn.qual}/budget-test:{s}", fn.loc(n.ast), f"{s} compares consumed[{want}] with budgets[{want}]",
                       f"{s} is guarded by `{t[:70]}`, which does not compare consumed and budget `{want}`")
